@@ -165,8 +165,8 @@ pub fn run(ctx: &Ctx, model: &mut Model, rep: &mut Report) {
         let v: serde_json::Value = serde_json::from_str(&std::fs::read_to_string(path).unwrap()).unwrap();
         let lib = parse_lib(&v["library"]);
         rep.evaluations += 1;
-        if let Some((what, _)) = check_library(&lib, false) {
-            rep.fail(json!({"kind": "backlinks", "library": lib, "what": what}));
+        if let Some((what, _)) = crate::act::with_via(crate::act::via_from(&v["via"]), || check_library(&lib, false)) {
+            rep.fail(json!({"kind": "backlinks", "library": lib, "via": v["via"], "what": what}));
         }
         return;
     }
@@ -213,10 +213,12 @@ pub fn run(ctx: &Ctx, model: &mut Model, rep: &mut Report) {
                 }
             }
         }
-        match check_library(&lib, wild && known_open) {
+        let via = crate::act::via_for(i as u64);
+        rep.count(&format!("loaded_via_{:?}", via));
+        match crate::act::with_via(via, || check_library(&lib, wild && known_open)) {
             None => {}
             Some((_, true)) => rep.count("attributed_to_D12_or_D22"),
-            Some((what, false)) => rep.fail(json!({"kind": "backlinks", "library": lib, "what": what})),
+            Some((what, false)) => rep.fail(json!({"kind": "backlinks", "library": lib, "via": format!("{:?}", via), "what": what})),
         }
     }
 }
